@@ -32,3 +32,7 @@ func VerifReattach(pj *ParsedJson, in any) {
 		pj.internal = p
 	}
 }
+
+// VerifTmpSize replaces the chunk-buffer constant of ParseNDStream in the instrumented
+// scratch copy (run.sh rewrites `const tmpSize = 10 << 20` to `tmpSize := VerifTmpSize`).
+var VerifTmpSize = 10 << 20
